@@ -36,6 +36,7 @@
 #include <sys/wait.h>
 #include <sys/stat.h>
 #include <fcntl.h>
+#include <dirent.h>
 #include <fstream>
 
 using namespace cfg;
@@ -51,7 +52,7 @@ void cfg::configure(int bits) {
   Config& g = G(); g.bits = bits;
   g.lim = bits == 64 ? 0x7fffffffffffffffL : (1L << (bits - 1)) - 1;
   switch (bits) {
-  case 8:  g.small = 3;  g.mid = 10;      g.maxdim = 2; break;
+  case 8:  g.small = 7;  g.mid = 35;      g.maxdim = 2; break;
   case 16: g.small = 8;  g.mid = 300;     g.maxdim = 3; break;
   case 32: g.small = 40; g.mid = 20000;   g.maxdim = 3; break;
   default: g.small = 2000; g.mid = 2000000000L; g.maxdim = 3; break;
@@ -232,29 +233,34 @@ static std::string exe_dir() { char b[4096]; ssize_t k = readlink("/proc/self/ex
 static bool file_exists(const std::string& p) { struct stat st; return stat(p.c_str(), &st) == 0; }
 static std::string slurp(const std::string& p, size_t max = 200000) { std::ifstream f(p.c_str()); std::stringstream ss; ss << f.rdbuf(); std::string s = ss.str(); if (s.size() > max) s = s.substr(s.size() - max); return s; }
 
-// condense a sanitizer report of the child into  <kind>@<frame><frame>
+// condense a sanitizer report of the child into  <kind>@<file><frame><frame   (no numbers that vary per case)
+static std::string strip_templates(const std::string& s) { std::string o; int depth = 0; for (size_t i = 0; i < s.size(); ++i) { if (s[i] == '<') ++depth; else if (s[i] == '>') { if (depth > 0) --depth; } else if (depth == 0) o += s[i]; } return o; }
 static std::string crash_site(const std::string& err, int status) {
-  std::string kind; std::vector<std::string> frames; std::string ub_loc;
+  std::string kind; std::vector<std::string> frames; std::string ub_file;
   std::vector<std::string> lines = split(err, "\n");
   for (size_t i = 0; i < lines.size(); ++i) {
     const std::string& l = lines[i]; size_t p;
     if (kind.empty() && (p = l.find("ERROR: AddressSanitizer: ")) != std::string::npos) { size_t q = p + 25; size_t e = l.find_first_of(" \n", q); kind = "asan-" + l.substr(q, e == std::string::npos ? std::string::npos : e - q); }
     if (kind.empty() && (p = l.find("runtime error: ")) != std::string::npos) {
-      std::string m = l.substr(p + 15); std::string k;
-      for (size_t j = 0; j < m.size() && k.size() < 48; ++j) { char ch = m[j]; if (isdigit((unsigned char) ch)) { if (k.empty() || k[k.size() - 1] != 'N') k += 'N'; } else if (isalpha((unsigned char) ch)) k += ch; else if (!k.empty() && k[k.size() - 1] != '-') k += '-'; }
+      // "signed integer overflow: A + B cannot be represented in type 'long int'"  ->  ubsan-signed-integer-overflow-long-int
+      std::string m = l.substr(p + 15); size_t colon = m.find(':'); std::string what = m.substr(0, colon), type;
+      size_t q1 = m.find('\''); size_t q2 = q1 == std::string::npos ? q1 : m.find('\'', q1 + 1); if (q2 != std::string::npos) type = m.substr(q1 + 1, q2 - q1 - 1);
+      std::string k; std::string src = what + (type.empty() ? "" : " " + type);
+      for (size_t j = 0; j < src.size() && k.size() < 60; ++j) { char ch = src[j]; if (isalnum((unsigned char) ch) || ch == '_') k += ch; else if (!k.empty() && k[k.size() - 1] != '-') k += '-'; }
+      while (!k.empty() && k[k.size() - 1] == '-') k.erase(k.size() - 1);
       kind = "ubsan-" + k;
-      size_t r = l.find("/repo/src/"); if (r != std::string::npos && r < p) { std::string loc = l.substr(r + 10, p - r - 10); size_t c1 = loc.find(':'); size_t c2 = c1 == std::string::npos ? c1 : loc.find(':', c1 + 1); ub_loc = loc.substr(0, c2); }
+      size_t r = l.find("/repo/src/"); if (r != std::string::npos && r < p) { std::string loc = l.substr(r + 10, p - r - 10); ub_file = loc.substr(0, loc.find(':')); }
     }
     size_t h = l.find('#');
-    if (h != std::string::npos && frames.size() < 2 && (p = l.find(" in ", h)) != std::string::npos) {
-      size_t path = l.find(" /", p + 4);
-      if (path != std::string::npos && l.find("/repo/", path) == path + 1) {
-        std::string fn = l.substr(p + 4, path - p - 4);
+    if (h != std::string::npos && frames.size() < 1 && (p = l.find(" in ", h)) != std::string::npos) {
+      size_t path = l.rfind(" /");
+      if (path != std::string::npos && path > p && l.find("/repo/", path) == path + 1) {
+        std::string fn = strip_templates(l.substr(p + 4, path - p - 4));
         size_t par = fn.find('('); if (par != std::string::npos && par > 0) fn = fn.substr(0, par);
+        while (!fn.empty() && fn[fn.size() - 1] == ' ') fn.erase(fn.size() - 1);
         size_t sp = fn.rfind(' '); if (sp != std::string::npos) fn = fn.substr(sp + 1);
         for (;;) { size_t q = fn.find("Parma_Polyhedra_Library::"); if (q == std::string::npos) break; fn.erase(q, 25); }
-        size_t lt = fn.find('<'); if (lt != std::string::npos && lt > 0) fn = fn.substr(0, lt);
-        frames.push_back(fn);
+        if (!fn.empty() && (frames.empty() || frames.back() != fn)) frames.push_back(fn);
       }
     }
   }
@@ -263,9 +269,8 @@ static std::string crash_site(const std::string& err, int status) {
     else if (WIFSIGNALED(status)) kind = "signal-" + std::to_string(WTERMSIG(status));
     else kind = "exit-" + std::to_string(WIFEXITED(status) ? WEXITSTATUS(status) : -1);
   }
-  std::string s = kind + "@";
-  if (frames.empty() && !ub_loc.empty()) frames.push_back(ub_loc);
-  for (size_t i = 0; i < frames.size(); ++i) s += (i ? "<" : "") + frames[i];
+  std::string s = kind + "@" + ub_file;
+  for (size_t i = 0; i < frames.size(); ++i) s += "<" + frames[i];
   return s;
 }
 
@@ -305,6 +310,26 @@ static void spawn_and_collect(int bits) {
     hx::count("child_autobuild"); int rc = system(cmd.c_str()); (void) rc;
   }
   if (!file_exists(child)) { violation("harness.bug.cfgdiff.child_binary_missing", child); g_child_failed = true; return; }
+  // Both binaries must come from the same library tree: a header edited between the two builds (BD_Shape, Octagonal_Shape
+  // are header-only) would show up as a "different answer".  Any library source newer than either binary => refuse.
+  {
+    std::string src = O.gets("repo", "/repo") + "/src", newest; time_t nt = 0;
+    if (DIR* d = opendir(src.c_str())) {
+      while (struct dirent* e = readdir(d)) {
+        std::string f = e->d_name; size_t k = f.size();
+        bool hh = k > 3 && f.compare(k - 3, 3, ".hh") == 0 && f != "ppl.hh", cc = k > 3 && f.compare(k - 3, 3, ".cc") == 0;
+        if (cc && (f == "Affine_Space.cc" || f == "Pointset_Ask_Tell.cc" || f == "ppl-config.cc" || f == "BUGS.cc" || f == "COPYING.cc" || f == "CREDITS.cc")) cc = false;
+        if (!hh && !cc) continue;
+        struct stat st; if (stat((src + "/" + f).c_str(), &st) == 0 && st.st_mtime > nt) { nt = st.st_mtime; newest = f; }
+      }
+      closedir(d);
+    }
+    struct stat sp, sc; std::string self = dir + "/cfgdiff";
+    if (nt && stat(self.c_str(), &sp) == 0 && stat(child.c_str(), &sc) == 0 && (sp.st_mtime < nt || sc.st_mtime < nt) && !O.geti("allowstale", 0)) {
+      violation("harness.bug.cfgdiff.stale_build", src + "/" + newest + " is newer than " + (sp.st_mtime < nt ? self : child) + ": rebuild both variants from the same tree");
+      g_child_failed = true; return;
+    }
+  }
   std::string base = O.out.empty() ? "/tmp/cfgdiff." + std::to_string((long) getpid()) : O.out;
   std::string log = base + ".i" + std::to_string(bits) + ".log", errf = log + ".err";
   unlink(log.c_str()); unlink((log + ".jsonl").c_str());
@@ -365,7 +390,7 @@ static void init_once() {
 static const char* const DOMAINS[8] = { "cpoly", "nnc", "grid", "bds", "oct", "mip", "pip", "lin" };
 static const int DOMW[8] = { 22, 16, 14, 10, 10, 10, 8, 10 };
 static Script* make_script(const std::string& d) {
-  G().scale_pct = d == "pip" ? 250 : d == "nnc" ? 130 : 100;
+  G().scale_pct = d == "pip" ? 500 : d == "nnc" ? 130 : 100;
   if (d == "cpoly") return make_poly_script(false); if (d == "nnc") return make_poly_script(true); if (d == "grid") return make_grid_script();
   if (d == "bds") return make_bd_script(); if (d == "oct") return make_oct_script(); if (d == "mip") return make_mip_script();
   if (d == "pip") return make_pip_script(); return make_lin_script();
@@ -410,6 +435,7 @@ static void run_case(uint64_t seed) {
     catch (const std::overflow_error& e) { res = XR_OVF; payload = std::string("OVERFLOW ") + clean(e.what()); }
     catch (const std::exception& e) { res = XR_EXC; exc_type = typeid(e).name(); exc_what = clean(e.what()); payload = "EXC " + exc_type + " " + exc_what; }
     std::string op = ctx.begun ? ctx.op : std::string("prelude");
+    if (hx::opt().verbose) fprintf(stderr, "res: %s\n", payload.substr(0, 1000).c_str());
     hx::count("steps");
     if (g_mode == LOG) {
       if (!ctx.begun) { fprintf(g_log, "S %ld %d %s\n", cs, s, op.c_str()); }
